@@ -41,7 +41,6 @@ INV = [
                      f'raw({WSW}[i].until_distance) <= raw({WSW}[j].until_distance)))'),
     ('never-ahead-no-segment-ending-beyond-the-projectile-has-been-left',
      f'forall(0, {WS}.current, lambda i: {UNT.format(k="i")} <= range_vector.x)'),
-    ('until-distances-below-the-sentinel', f'forall(0, len({WSW}), lambda i: {UNT.format(k="i")} < Wind.MAX_DISTANCE_FEET)'),
     ('wind-in-force-is-the-cached-one', f'wind_vector.x == {WS}._last_vector_cache.x and wind_vector.y == '
                                         f'{WS}._last_vector_cache.y and wind_vector.z == {WS}._last_vector_cache.z'),
     ('filter-settings', f'{DF}.filter == filter_flags and {DF}.range_step == record_step and {DF}.time_step == time_step '
